@@ -2,6 +2,7 @@ import T4V.Model.Hex
 import T4V.Model.Lattice
 import T4V.Props.C06
 import Mathlib.Tactic.Ring
+import Mathlib.Tactic.FieldSimp
 import Mathlib.Tactic.LinearCombination
 /-!
 # Property C07 — hexagonal lattices follow MCNP's hexagonal index convention
@@ -107,5 +108,49 @@ enumeration (first index fastest), same pairing with the FILL array -/
 theorem hex_fill_array_order {β} (bs : List (Int × Int)) (spec : List β) (h : bs ≠ []) :
     latItems bs spec = (indexBox bs).zip spec :=
   C06.items_zip bs spec h
+
+
+section
+variable {α : Type} [Field α]
+
+/-- the projection lies on the plane -/
+theorem projection_on_plane (point plPt normal dir : V3 α) (h : dir.dot normal ≠ 0) :
+    normal.dot ((projectPointOnPlane point plPt normal dir).sub plPt) = 0 := by
+  simp only [projectPointOnPlane, V3.dot, V3.sub, V3.add, V3.smul] at h ⊢
+  generalize hd : dir.x * normal.x + dir.y * normal.y + dir.z * normal.z = d at h ⊢
+  field_simp
+  linear_combination ((plPt.x - point.x) * normal.x + (plPt.y - point.y) * normal.y + (plPt.z - point.z) * normal.z) * hd
+
+/-- **the third base vector of an eight-plane hexagonal prism**: for parallel end planes (`n8 = μ·n7`) it is the
+multiple of the prism axis that carries the eighth-listed plane onto the seventh-listed one, whatever vertex the
+construction starts from -/
+theorem hex_axial_vector (v p7 n7 p8 n8 axis : V3 α) (μ : α) (hμ : μ ≠ 0) (hn : n8 = V3.smul μ n7)
+    (hax : axis.dot n7 ≠ 0) :
+    hexAxialVector v p7 n7 p8 n8 axis = V3.smul (n7.dot (p7.sub p8) / n7.dot axis) axis ∧
+    ∀ x : V3 α, n8.dot (x.sub p8) = 0 → n7.dot ((x.add (hexAxialVector v p7 n7 p8 n8 axis)).sub p7) = 0 := by
+  subst hn
+  have e1 : n7.dot axis = axis.dot n7 := by simp only [V3.dot]; ring
+  have e2 : axis.dot (V3.smul μ n7) = μ * axis.dot n7 := by simp only [V3.dot, V3.smul]; ring
+  have key : hexAxialVector v p7 n7 p8 (V3.smul μ n7) axis = V3.smul (n7.dot (p7.sub p8) / n7.dot axis) axis := by
+    unfold hexAxialVector projectPointOnPlane
+    rw [e1, e2]
+    generalize axis.dot n7 = d at hax
+    have e3 : ((p8.sub v).dot (V3.smul μ n7)) / (μ * d) = ((p8.sub v).dot n7) / d := by
+      have : (p8.sub v).dot (V3.smul μ n7) = μ * (p8.sub v).dot n7 := by simp only [V3.dot, V3.smul]; ring
+      rw [this]; field_simp
+    rw [e3]
+    apply V3.ext' <;> simp only [V3.dot, V3.sub, V3.add, V3.smul] <;> field_simp <;> ring
+  refine ⟨key, fun x hx => ?_⟩
+  rw [key, e1]
+  have hx' : n7.dot (x.sub p8) = 0 := by
+    have : (V3.smul μ n7).dot (x.sub p8) = μ * n7.dot (x.sub p8) := by simp only [V3.dot, V3.smul]; ring
+    rw [this] at hx
+    exact (mul_eq_zero.mp hx).resolve_left hμ
+  have hd : axis.dot n7 = axis.x * n7.x + axis.y * n7.y + axis.z * n7.z := rfl
+  generalize axis.dot n7 = d at hax hd
+  simp only [V3.dot, V3.sub, V3.add, V3.smul] at hx' ⊢
+  field_simp
+  linear_combination d * hx' - (n7.x * (p7.x - p8.x) + n7.y * (p7.y - p8.y) + n7.z * (p7.z - p8.z)) * hd
+end
 
 end T4V.C07
